@@ -35,7 +35,9 @@ logging.getLogger("aiohttp.access").disabled = True
 logging.getLogger("aiohttp.web").disabled = True
 
 OK_KINDS = ("ret", "yield", "sleep", "read_body", "ignore_body", "stream", "stream_cl", "payload", "aiter")
-STATUS = {"http_exc": {403}, "exc": {500}, "timeout": {504}, "non_response": {500}, "partial_raise": {200}, "partial_timeout": {200}}
+STATUS = {"http_exc": {403}, "exc": {500}, "timeout": {504}, "non_response": {500}, "partial_raise": {200}, "partial_timeout": {200},
+          "partial_http_exc": {200}, "prepared_raise": {200}, "prepared_timeout": {200}, "prepared_http_exc": {200}}
+FAILS_AFTER_HEAD = ("partial_raise", "partial_timeout", "partial_http_exc", "prepared_raise", "prepared_timeout", "prepared_http_exc")
 
 
 def build_request(i: int, r: dict) -> bytes:
@@ -147,16 +149,25 @@ def execute(case: dict) -> dict:
             elif kind == "read_body":
                 data = await request.read()
                 return web.Response(text=f"r{i}:{len(data)}", headers=hdr)
-            elif kind in ("stream", "stream_cl", "partial_raise", "partial_timeout"):
+            elif kind in ("stream", "stream_cl", "partial_raise", "partial_timeout", "partial_http_exc", "prepared_raise", "prepared_timeout", "prepared_http_exc"):
                 resp = web.StreamResponse(status=r.get("status", 200), headers=hdr)
                 if kind == "stream_cl":
                     resp.content_length = 6
                 await resp.prepare(request)
+                # the head is on the wire: whatever happens now, no second response may be written into this one
+                if kind == "prepared_raise":
+                    raise RuntimeError("after-prepare")
+                if kind == "prepared_timeout":
+                    raise asyncio.TimeoutError()
+                if kind == "prepared_http_exc":
+                    raise web.HTTPNotFound(text="late")
                 await resp.write(b"abc")
                 if kind == "partial_raise":
                     raise RuntimeError("mid-stream")
                 if kind == "partial_timeout":
                     raise asyncio.TimeoutError()
+                if kind == "partial_http_exc":
+                    raise web.HTTPNotFound(text="late")
                 await asyncio.sleep(0)
                 await resp.write(b"def")
                 await resp.write_eof()
@@ -359,7 +370,7 @@ def execute(case: dict) -> dict:
                 if kind == "read_body" and not is_head and r.body != f"r{who}:{reqs[who].get('n', 0) if reqs[who].get('body', 'none') != 'none' else 0}".encode():
                     raise Violation("request-body-length", f"request {who}: handler saw {r.body!r}")
         # malformed input is the client's error: no 5xx unless a handler of this pipeline fails by itself
-        if not any(r.get("h") in ("exc", "non_response", "timeout", "partial_raise", "partial_timeout") for r in reqs):
+        if not any(r.get("h") in ("exc", "non_response", "timeout") + FAILS_AFTER_HEAD for r in reqs):
             bad5 = [x.status for x in finals if x.status >= 500]
             if bad5:
                 raise Violation("client-error-answered-5xx", f"statuses {[x.status for x in finals]}: a 5xx although no handler fails by itself "
@@ -427,7 +438,7 @@ def body(rec: Rec, case: dict) -> None:
 
 # ------------------------------------------------------------------ generators
 HANDLERS = ["ret", "ret", "ret", "yield", "sleep", "http_exc", "exc", "timeout", "non_response", "read_body", "ignore_body", "stream", "stream_cl",
-            "partial_raise", "partial_timeout", "payload", "aiter"]
+            "partial_raise", "partial_timeout", "payload", "aiter", "partial_http_exc", "prepared_raise", "prepared_timeout", "prepared_http_exc"]
 
 
 @st.composite
